@@ -11,7 +11,16 @@
 EXTENDS ProcessCore
 
 Quiescent == ready = <<>>
-Clean     == S.dev = {}
+\* Listed known findings (known_findings.json) that can make a property fail; a behaviour that went through
+\* one of these deviation clauses is excused for THAT property only.
+DevOf(p) == CASE p = "C01" -> {}
+              [] p = "C02" -> {"D7", "D9", "D10"}
+              [] p = "C03" -> {"D10"}
+              [] p = "C04" -> {"D3", "D8", "D9", "D10"}
+              [] p = "C05" -> {"D4", "D6", "D10"}
+              [] p = "C06" -> {"D5"}
+              [] p = "C13" -> {}
+CleanFor(p) == S.dev \cap DevOf(p) = {}
 Terminated(s) == s.st \in Terminal
 
 LogOf(s, kind) == SelectSeq(s.log, LAMBDA e : e[1] = kind)
@@ -20,42 +29,44 @@ Steps(s) == LogOf(s, "step")
 (* ---- C01: lifecycle graph, terminal states are final ----------------------------------------- *)
 Legal == {<<"CREATED", t>> : t \in {"RUNNING", "KILLED", "EXCEPTED"}}
          \cup {<<f, t>> : f \in {"RUNNING", "WAITING"}, t \in {"RUNNING", "WAITING", "FINISHED", "KILLED", "EXCEPTED"}}
-C01_Lifecycle == Clean => /\ \A i \in 1..Len(S.log) : S.log[i][1] = "enter" => <<S.log[i][2], S.log[i][3]>> \in Legal
-                          /\ "leftTerminal" \notin S.bad
+C01_Lifecycle == /\ \A i \in 1..Len(S.log) : S.log[i][1] = "enter" => <<S.log[i][2], S.log[i][3]>> \in Legal
+                 /\ "leftTerminal" \notin S.bad
 \* action property: once terminal, the label and the outcome never change again
-C01_TerminalFinal == [][(S.st \in Terminal /\ S.dev = {} /\ S'.dev = {}) => (S'.st = S.st /\ S'.cur = S.cur)]_vars
+C01_TerminalFinal == [][S.st \in Terminal => (S'.st = S.st /\ S'.cur = S.cur)]_vars
 
 (* ---- C02: all reports of the outcome agree; waiters are released ------------------------------ *)
-C02_FutureNotEarly == Clean => (S.st \in Live => S.fut.st \in {"pending", "cancelled"})
+C02_FutureNotEarly == CleanFor("C02") => (S.st \in Live => S.fut.st \in {"pending", "cancelled"})
 C02_Agree ==
-  Clean => /\ S.st = "FINISHED" => S.fut = [st |-> "result", val |-> S.outputs]
-           /\ S.st = "EXCEPTED" => S.fut = [st |-> "exc", val |-> S.cur.val]
-           /\ S.st = "KILLED"   => S.fut = [st |-> "killed", val |-> S.cur.val]
+  CleanFor("C02") =>
+     /\ S.st = "FINISHED" => S.fut = [st |-> "result", val |-> S.outputs]
+     /\ S.st = "EXCEPTED" => S.fut = [st |-> "exc", val |-> S.cur.val]
+     /\ S.st = "KILLED"   => S.fut = [st |-> "killed", val |-> S.cur.val]
 TerminalNotes(s) == SelectSeq(s.log, LAMBDA e : e[1] = "notify" /\ e[2] \in {"finished", "excepted", "killed"})
 C02_OneNotification ==
-  Clean => /\ Len(TerminalNotes(S)) = (IF Terminated(S) THEN 1 ELSE 0)
-           /\ Terminated(S) => TerminalNotes(S)[1][2] = (CASE S.st = "FINISHED" -> "finished" [] S.st = "EXCEPTED" -> "excepted" [] OTHER -> "killed")
-C02_ClosedOnce == Clean => (S.closed = Terminated(S) /\ S.cleaned = (IF Terminated(S) THEN 1 ELSE 0))
-C02_TaskReturns == (Clean /\ Quiescent /\ Terminated(S)) => S.task.pc = "done"
+  CleanFor("C02") =>
+     /\ Len(TerminalNotes(S)) = (IF Terminated(S) THEN 1 ELSE 0)
+     /\ Terminated(S) => TerminalNotes(S)[1][2] = (CASE S.st = "FINISHED" -> "finished" [] S.st = "EXCEPTED" -> "excepted" [] OTHER -> "killed")
+C02_ClosedOnce == CleanFor("C02") => (S.closed = Terminated(S) /\ S.cleaned = (IF Terminated(S) THEN 1 ELSE 0))
+C02_TaskReturns == (CleanFor("C02") /\ Quiescent /\ Terminated(S)) => S.task.pc = "done"
 
 (* ---- C03 (part): nothing escapes into the event loop, no half transition --------------------- *)
-C03_TaskNeverFails == Clean => S.task.pc # "failed"
-C03_NoCallbackEscapes == Clean => \A i \in 1..Len(S.log) : S.log[i][1] # "cbtaskfailed"
+C03_TaskNeverFails == CleanFor("C03") => S.task.pc # "failed"
+C03_NoCallbackEscapes == CleanFor("C03") => \A i \in 1..Len(S.log) : S.log[i][1] # "cbtaskfailed"
 C03_NoHalfTransition == ~S.transitioning /\ ~S.failing /\ (Quiescent => ~S.stepping \/ S.task.pc \in {"awaitWF"})
 
 (* ---- C04: a kill is never lost, never raises, no live process is unkillable ------------------- *)
-C04_KillNoRaise == Clean => "killRaised" \notin S.bad
+C04_KillNoRaise == CleanFor("C04") => "killRaised" \notin S.bad
 \* the step that was in flight may have failed: then EXCEPTED with that step's exception
 \* ... or the environment failed the process itself (fail(), a raising call_soon callback) before the kill took effect
 StepFailed(s) == s.st = "EXCEPTED" /\ (s.cur.val \in {"F", "CB"} \/ \E i \in 1..Len(Prog(s)) : Prog(s)[i].cmd = "raise" /\ Prog(s)[i].val = s.cur.val)
-C04_KillNotLost == (Clean /\ Quiescent /\ S.mon.killAcc) => (S.st = "KILLED" \/ StepFailed(S))
+C04_KillNotLost == (CleanFor("C04") /\ Quiescent /\ S.mon.killAcc) => (S.st = "KILLED" \/ StepFailed(S))
 KillCalls(s) == SelectSeq(s.log, LAMBDA e : e[1] = "call" /\ e[2] = "kill")
 ActOf(ret) == CHOOSE a \in 1..Len(S.acts) : ret = "act:" \o ToString(a)
 ResolvedTrue(e) == e[4] = "True" \/ (e[4] \notin {"True", "False", None} /\ S.acts[ActOf(e[4])].status = "done")
-C04_KillReply == (Clean /\ Quiescent /\ Terminated(S)) =>
+C04_KillReply == (CleanFor("C04") /\ Quiescent /\ Terminated(S)) =>
                    \A i \in 1..Len(KillCalls(S)) : LET e == KillCalls(S)[i] IN
                       (e[5] = NoExc) => (ResolvedTrue(e) <=> S.st = "KILLED")
-C04_KillText == (Clean /\ S.st = "KILLED" /\ S.mon.killAcc) =>
+C04_KillText == (CleanFor("C04") /\ S.st = "KILLED" /\ S.mon.killAcc) =>
                    S.cur.val \in S.mon.killTexts \cup {Prog(S)[i].val : i \in {j \in 1..Len(Prog(S)) : Prog(S)[j].cmd = "kill"}}
 
 RECURSIVE Drain(_, _)
@@ -63,17 +74,17 @@ Drain(s, rdy) == IF rdy = <<>> THEN s
                  ELSE LET s1 == Handle(s, Head(rdy)) IN Drain(Flush(s1), Tail(rdy) \o s1.sched)
 \* from every reachable live configuration a further kill() still terminates the process
 C04_KillFromAnywhere ==
-  (Clean /\ S.st \in Live) =>
+  (CleanFor("C04") /\ S.st \in Live) =>
      LET r == Kill(S, "probe") IN
-       /\ (r.exc = NoExc \/ r.s.dev # {})
-       /\ LET e == Drain(Flush(r.s), ready \o r.s.sched) IN e.st = "KILLED" \/ StepFailed(e) \/ e.dev # {}
+       /\ (r.exc = NoExc \/ r.s.dev \cap DevOf("C04") # {})
+       /\ LET e == Drain(Flush(r.s), ready \o r.s.sched) IN e.st = "KILLED" \/ StepFailed(e) \/ e.dev \cap DevOf("C04") # {}
 
 (* ---- C05: pause/play is transparent ------------------------------------------------------------ *)
-C05_NoStepWhilePaused == Clean => "stepWhilePaused" \notin S.bad
-C05_NoRaise == Clean => S.bad \cap {"pauseRaised", "playRaised"} = {}
-C05_PlayUnpauses == Clean => "playLeftPaused" \notin S.bad
+C05_NoStepWhilePaused == CleanFor("C05") => "stepWhilePaused" \notin S.bad
+C05_NoRaise == CleanFor("C05") => S.bad \cap {"pauseRaised", "playRaised"} = {}
+C05_PlayUnpauses == CleanFor("C05") => "playLeftPaused" \notin S.bad
 \* a play that is the last pause/play request leaves the process playing for good
-C05_PlayWins == (Clean /\ S.mon.lastPlay) => S.pausedF = "none"
+C05_PlayWins == (CleanFor("C05") /\ S.mon.lastPlay) => S.pausedF = "none"
 
 \* the uninterrupted reference run: every wait is resumed (with the only value on offer) when the loop is idle
 RECURSIVE RefRun(_, _, _)
@@ -87,21 +98,21 @@ Ref == RefRun(InitS(S.pi, S.pl), <<"task">>, 100)
 
 IsPrefixOf(a, b) == Len(a) <= Len(b) /\ SubSeq(b, 1, Len(a)) = a
 OnlyPausePlayResume == Alphabet \subseteq {"pause", "play", "resume"}
-C05_StepsPrefix == (Clean /\ OnlyPausePlayResume) => IsPrefixOf(Steps(S), Steps(Ref))
-C05_Transparent == (Clean /\ OnlyPausePlayResume /\ Terminated(S)) =>
+C05_StepsPrefix == (CleanFor("C05") /\ OnlyPausePlayResume) => IsPrefixOf(Steps(S), Steps(Ref))
+C05_Transparent == (CleanFor("C05") /\ OnlyPausePlayResume /\ Terminated(S)) =>
                       /\ Steps(S) = Steps(Ref) /\ S.outputs = Ref.outputs /\ S.cur = Ref.cur /\ S.fut = Ref.fut
 
 (* ---- C06: a wake-up is never lost ----------------------------------------------------------- *)
-C06_NoLostWakeup == (Clean /\ Quiescent /\ S.st = "WAITING" /\ S.mon.resumed) => S.pausedF # "none"
-C06_ResumeValue == Clean => "wrongResumeValue" \notin S.bad
+C06_NoLostWakeup == (CleanFor("C06") /\ Quiescent /\ S.st = "WAITING" /\ S.mon.resumed) => S.pausedF # "none"
+C06_ResumeValue == CleanFor("C06") => "wrongResumeValue" \notin S.bad
 
 (* ---- C13: the returned command alone decides the next step and its arguments ---------------- *)
-C13_Continuation == Clean => "wrongContinuation" \notin S.bad
+C13_Continuation == CleanFor("C13") => "wrongContinuation" \notin S.bad
 
 \* with no interference but resume: the command returned by the last executed step decides the outcome
 LastStep(s) == LET st == Steps(s) IN IF st = <<>> THEN 0 ELSE st[Len(st)][2]
 C13_Outcome ==
-  (Clean /\ Alphabet \subseteq {"resume"} /\ Quiescent /\ LastStep(S) # 0) =>
+  (CleanFor("C13") /\ Alphabet \subseteq {"resume"} /\ Quiescent /\ LastStep(S) # 0) =>
      LET d == Prog(S)[LastStep(S)] IN
        CASE d.cmd = "stop"   -> S.st = "FINISHED" /\ S.cur.val = d.val /\ S.cur.succ = ~Progs[S.pi].outMissing
          [] d.cmd = "unsucc" -> S.st = "FINISHED" /\ S.cur.val = d.val /\ ~S.cur.succ
